@@ -43,9 +43,10 @@ def entries : Nat → Bytes → List (Nat × Nat) × Cut
       | none => ([], .inValue id)
       | some (v, r2) => ((id, v) :: (entries fuel r2).1, (entries fuel r2).2)
 
-/-- §7.2.4.1 reserved identifier, or a defined identifier twice (R-13) -/
+/-- §7.2.4.1 reserved identifier, a defined identifier twice (R-13), or a 0/1 setting of RFC 9297 / RFC 8441 with
+    another value (R-13b; only complete entries carry a value) -/
 def badIds (ps : List (Nat × Nat)) : Bool :=
-  ps.any (fun e => h2Settings.contains e.1) || hasRepeatedDefined ps
+  ps.any (fun e => h2Settings.contains e.1) || hasRepeatedDefined ps || hasBadBool ps
 
 /-- the identifiers received in full: those of the complete entries and the one of an entry whose
     value is cut (value 0 stands in: `badIds` looks at identifiers only) -/
